@@ -889,6 +889,11 @@ impl<'a> Parser<'a> {
                 }
                 Some(Keyword::NOSCAN) => noscan = true,
                 Some(Keyword::FOR) => {
+                    if for_columns {
+                        // a second FOR COLUMNS list: not ours, leave it to the caller
+                        self.prev_token();
+                        break;
+                    }
                     self.expect_keyword(Keyword::COLUMNS)?;
 
                     columns = self
@@ -3983,11 +3988,18 @@ impl<'a> Parser<'a> {
         let mut managed_location = None;
         loop {
             match self.parse_one_of_keywords(&[Keyword::LOCATION, Keyword::MANAGEDLOCATION]) {
-                Some(Keyword::LOCATION) => location = Some(self.parse_literal_string()?),
-                Some(Keyword::MANAGEDLOCATION) => {
+                Some(Keyword::LOCATION) if location.is_none() => {
+                    location = Some(self.parse_literal_string()?)
+                }
+                Some(Keyword::MANAGEDLOCATION) if managed_location.is_none() => {
                     managed_location = Some(self.parse_literal_string()?)
                 }
-                _ => break,
+                // a repeated clause would replace the first: leave it to be rejected
+                Some(_) => {
+                    self.prev_token();
+                    break;
+                }
+                None => break,
             }
         }
         Ok(Statement::CreateDatabase {
@@ -5747,6 +5759,19 @@ impl<'a> Parser<'a> {
                 Keyword::LOCATION,
                 Keyword::WITH,
             ]) {
+                // a clause given twice is not ours: the second one would replace the first
+                Some(Keyword::ROW) if hive_format.row_format.is_some() => {
+                    self.prev_token();
+                    break;
+                }
+                Some(Keyword::STORED) if hive_format.storage.is_some() => {
+                    self.prev_token();
+                    break;
+                }
+                Some(Keyword::LOCATION) if hive_format.location.is_some() => {
+                    self.prev_token();
+                    break;
+                }
                 Some(Keyword::ROW) => {
                     hive_format.row_format = Some(self.parse_row_format()?);
                 }
@@ -5770,6 +5795,9 @@ impl<'a> Parser<'a> {
                 }
                 Some(Keyword::WITH) => {
                     self.prev_token();
+                    if hive_format.serde_properties.is_some() {
+                        break;
+                    }
                     let properties = self
                         .parse_options_with_keywords(&[Keyword::WITH, Keyword::SERDEPROPERTIES])?;
                     if !properties.is_empty() {
@@ -9107,12 +9135,17 @@ impl<'a> Parser<'a> {
             } else if self.parse_keyword(Keyword::BINARY) {
                 self.expect_keyword(Keyword::BASE64)?;
                 binary_base64 = true;
-            } else if self.parse_keyword(Keyword::ROOT) {
+            } else if root.is_none() && self.parse_keyword(Keyword::ROOT) {
                 self.expect_token(&Token::LParen)?;
                 root = Some(self.parse_literal_string()?);
                 self.expect_token(&Token::RParen)?;
             } else if self.parse_keyword(Keyword::TYPE) {
                 r#type = true;
+            } else {
+                return self.expected(
+                    "ELEMENTS, BINARY BASE64, ROOT or TYPE after the comma",
+                    self.peek_token(),
+                );
             }
         }
         Ok(ForClause::Xml {
@@ -9140,7 +9173,7 @@ impl<'a> Parser<'a> {
         let mut without_array_wrapper = false;
         while self.peek_token().token == Token::Comma {
             self.next_token();
-            if self.parse_keyword(Keyword::ROOT) {
+            if root.is_none() && self.parse_keyword(Keyword::ROOT) {
                 self.expect_token(&Token::LParen)?;
                 root = Some(self.parse_literal_string()?);
                 self.expect_token(&Token::RParen)?;
@@ -9148,6 +9181,11 @@ impl<'a> Parser<'a> {
                 include_null_values = true;
             } else if self.parse_keyword(Keyword::WITHOUT_ARRAY_WRAPPER) {
                 without_array_wrapper = true;
+            } else {
+                return self.expected(
+                    "ROOT, INCLUDE_NULL_VALUES or WITHOUT_ARRAY_WRAPPER after the comma",
+                    self.peek_token(),
+                );
             }
         }
         Ok(ForClause::Json {
